@@ -70,6 +70,31 @@ def measure_plane(method: str, left: np.ndarray, rd: np.ndarray, w: int) -> np.n
     return c
 
 
+def zncc_tolerance(left, rd, w):
+    """Per-pixel bound on |zncc_float32_pipeline - zncc_exact| for one disparity plane.
+
+    The implementation squares and multiplies float32 samples before averaging in float64: each product carries a
+    relative rounding error of 2^-24 unless it is exactly representable (integer samples <= 4095).  The variance and
+    covariance are differences of such means, so the absolute error is amplified by 1/variance."""
+    lw = window_stack(left.astype(np.float64), w)
+    rw = window_stack(rd, w)
+    eps = 2.0 ** -23
+
+    def err(a, b):
+        prod = a * b
+        exact = (prod == np.round(prod)) & (np.abs(prod) < 2 ** 24)
+        return np.where(exact, 0.0, np.abs(prod) * eps).mean(axis=0)
+
+    with np.errstate(invalid="ignore", divide="ignore"):
+        vl, vr = lw.var(axis=0), rw.var(axis=0)
+        e_ll, e_rr, e_lr = err(lw, lw), err(rw, rw), err(lw, rw)
+        den = np.sqrt(vl * vr)
+        tol = 2e-5 + np.where(den > 0, e_lr / den, 0) + 0.5 * np.where(vl > 0, e_ll / vl, 0) + 0.5 * np.where(vr > 0, e_rr / vr, 0)
+        # a variance of the order of its own rounding error can even be flushed to 0 by the implementation
+        tol = np.where((vl > 0) & (vl <= 4 * e_ll) | (vr > 0) & (vr <= 4 * e_rr), np.inf, tol)
+    return np.nan_to_num(tol, nan=np.inf)
+
+
 def zncc_variances(left, rd, w):
     lw = window_stack(left.astype(np.float64), w)
     rw = window_stack(rd, w)
